@@ -140,7 +140,7 @@ def gen_lit(rng, p, typ):
     if typ == "decimal":
         v = rng.choice(DEC_LITS)
         return T.lit("float" if "." in v else "int", v)
-    return T.lit(typ, rng.choice(LITS[typ]))
+    return T.lit(typ, rng.choice(getattr(p, typ + "_lits", None) or LITS[typ]))
 
 
 def gen_leaf(rng, p, typ):
